@@ -119,7 +119,18 @@ func (c *Compiler) Code() *Code {
 }
 
 // Compile the given AST node and return the compiled code object.
-func (c *Compiler) Compile(node ast.Node) (*Code, error) {
+func (c *Compiler) Compile(node ast.Node) (code *Code, err error) {
+	// A Compiler may be used to compile a program incrementally (the REPL
+	// does). If this input is rejected, undo what it appended to the main code
+	// and its symbol table, so that it has no effect on the inputs that follow.
+	state := c.main.saveState()
+	defer func() {
+		if err != nil {
+			c.main.restoreState(state)
+			c.current = c.main
+		}
+	}()
+
 	c.failure = nil
 	if c.main.source == "" {
 		c.main.source = node.String()
